@@ -93,11 +93,32 @@ impl PreloadUnverifiedBlocksChannel {
             verify_callback,
         } = task;
 
-        let block_view = self
+        let Some(block_view) = self
             .shared
             .store()
             .get_block(&block_number_and_hash.hash())
-            .expect("block stored");
+        else {
+            // The block was deleted while it waited in the queue: it had been accepted as a
+            // descendant of a block pending verification, that block failed, and its stored
+            // descendants were removed with it (a second delivery of the same block can still be
+            // queued here). Nothing is left to verify.
+            let block_hash = block_number_and_hash.hash();
+            info!(
+                "block {}-{} has been deleted while it waited for verification",
+                block_number_and_hash.number(),
+                block_hash
+            );
+            self.is_pending_verify.remove(&block_hash);
+            if let Some(callback) = verify_callback {
+                callback(Err(InternalErrorKind::Other
+                    .other(format!(
+                        "block: {} was deleted while it waited for verification",
+                        block_hash
+                    ))
+                    .into()));
+            }
+            return None;
+        };
         let block = Arc::new(block_view);
         let Some(parent_header) = self.shared.store().get_block_header(&parent_hash) else {
             // The parent failed verification and was deleted while this block waited in the
